@@ -71,11 +71,16 @@ def run_in_child(scenario, wall_s=None):
     r, w = os.pipe()
     sys.stdout.flush()
     sys.stderr.flush()
+    # everything the run writes (its scratch tree) lives below a directory of its own that this process removes afterwards,
+    # also when the child had to be killed and could not tidy up itself
+    import tempfile
+    rundir = tempfile.mkdtemp(prefix="nsimrun-", dir=core.SCRATCH_BASE)
     pid = os.fork()
     if pid == 0:
         code = 0
         try:
             os.close(r)
+            core.SCRATCH_BASE = rundir
             try:
                 sc = resolve_files(scenario)
                 res = ("ok", core.execute(sc, wall_s=wall_s, wall_cap=wall_cap))
@@ -116,6 +121,8 @@ def run_in_child(scenario, wall_s=None):
         os.waitpid(pid, 0)
     except ChildProcessError:
         pass
+    import shutil
+    shutil.rmtree(rundir, ignore_errors=True)
     if killed:
         return {"killed": True}
     data = b"".join(chunks)
